@@ -197,6 +197,9 @@ fn numeral() -> impl Strategy<Value = String> {
         4 => "[0-9]{1,25}",
         2 => "[0-9]{0,20}\\.[0-9]{0,30}",
         2 => "\\.[0-9]{1,30}",
+        // fractions so close to one (or to a power of ten) that they are stored rounded up
+        1 => "\\.9{15,25}[0-9]{0,4}",
+        1 => "[0-9]{0,3}\\.9{15,25}",
         1 => "0{1,5}[0-9]{1,10}",
         1 => "[0-9]{1,10}\\.?0{1,10}",
         1 => "[1-9][0-9]{280,400}",
